@@ -88,6 +88,9 @@ def run(ctx):
                 samples.append({"scenario": name, "key": key})
         if fatal:
             ctx.violation(fatal[0], "process aborted: %s (scenario %s)" % (fatal[0], name), replay={"scenario": name, "report": fatal[1]})
+        elif rc == 66 and "WARNING: DATA RACE" in se and not races:
+            # reports whose stacks are not both inside the proxy (harness or library code only): recorded, not a verdict
+            ctx.notes.setdefault("foreign_race_reports", []).append({"scenario": name, "excerpt": se[se.index("WARNING: DATA RACE"):][:1500]})
         elif rc != 0 and not races:
             raise core.Inconclusive("scenario %s failed rc=%d: %s" % (name, rc, se[-1500:]))
         for f in os.listdir(ctx.scratch):
